@@ -1,6 +1,8 @@
 package main
 
 import (
+	"fmt"
+	"sync"
 	stdecdsa "crypto/ecdsa"
 	stded "crypto/ed25519"
 	"math/rand"
@@ -340,3 +342,64 @@ func init() {
 		return res
 	})
 }
+
+func init() {
+	// ConcurrentSign: the same signing constructor call made by n goroutines at once, each with its own fresh keys (so each builds,
+	// signs, verifies, serialises and re-parses a DIFFERENT structure), reps times each; before that, once sequentially.
+	// Every structure has to verify exactly as the sequentially built one does.
+	register("ConcurrentSign", func(s *Session, a Args) Res {
+		build := ops["SignBuild"]
+		with := func(stream int) Args {
+			c := Args{}
+			for k, v := range a {
+				c[k] = v
+			}
+			c["stream"] = float64(stream)
+			return c
+		}
+		good := func(r Res) bool {
+			for _, k := range []string{"setup", "ok", "verify_ok", "indep_ok", "rt_parse_ok", "rt_verify_ok"} {
+				if b, _ := r[k].(bool); !b {
+					return false
+				}
+			}
+			return true
+		}
+		seq := build(s, with(a.Int("stream")))
+		n, reps := a.Int("n"), a.Int("reps")
+		var wg sync.WaitGroup
+		var mu sync.Mutex
+		nfail, panics := 0, 0
+		example := ""
+		gate := make(chan struct{})
+		for g := 0; g < n; g++ {
+			wg.Add(1)
+			go func(g int) {
+				defer wg.Done()
+				defer func() {
+					if p := recover(); p != nil {
+						mu.Lock()
+						panics++
+						mu.Unlock()
+					}
+				}()
+				<-gate
+				for r := 0; r < reps; r++ {
+					out := build(s, with(a.Int("stream")+(g+1)*100003+r))
+					if !good(out) {
+						mu.Lock()
+						nfail++
+						if example == "" {
+							example = fmt.Sprintf("ok=%v verify=%v indep=%v rt_parse=%v rt_verify=%v err=%v", out["ok"], out["verify_ok"], out["indep_ok"], out["rt_parse_ok"], out["rt_verify_ok"], out["err"])
+						}
+						mu.Unlock()
+					}
+				}
+			}(g)
+		}
+		close(gate)
+		wg.Wait()
+		return Res{"setup": true, "seq_good": good(seq), "nruns": n * reps, "nfail": nfail, "panics": panics, "example": example}
+	})
+}
+
